@@ -142,4 +142,10 @@ CHECKS["C40"] = dict(level="model_checking", technique="TLC model checking of th
          "a-posteriori factors, integrator FAILURE / throw, energies, speed of sound), for 3 strain measures, and sentinel-prefilled "
          "output buffers are compared bitwise.",
     note="Same generated probe and harness as C39; only the C40 obligations are reported here.", ref="8/C40")
+CHECKS["C38"] = dict(level="exploration", technique="TLC-enumerated decision table of the call contract (MaterialProperty.tla) replayed on generated generic / C interfaces and judged by TLC",
+    text="Two probe laws (two-sided / upper-only / lower-only bounds and physical bounds; a law calling log) are generated by the current "
+         "mfront with the generic and C interfaces; TLC enumerates every argument vector over the 9-point position lattice of each "
+         "argument (729) x policy x caller errno, wrong argument counts and C-library error cases; the harness records status, "
+         "bounds_status, c_error_number, the class of the returned value, errno after the call and _checkBounds; TLC judges the table.",
+    note="Under Warning any offending argument's rank is accepted; -3 or -4 is accepted when both errno and a non-finite value occur.", ref="8/C38")
 NOT_APPLICABLE = {}
